@@ -134,13 +134,17 @@ def nested_oracle(run: Run):
               sample="nested mutable objects per table: %d" % res["objects"])
     for s in res["shared"]:
         # the one class-level Neutron() placeholder is the recorded finding D20
-        attr = "neutron" if s.split(" == ")[0].endswith(".neutron") and s.split(" == ")[1].endswith(".neutron") else "nested"
+        sides = [x.split(" (")[0] for x in s.split(" == ")]
+        attr = "neutron" if all(x.endswith(".neutron") or x.endswith(".neutron.__dict__") for x in sides) else "nested"
         run.violation("a mutable object is shared between the public and a private table: %s" % s,
                       dict(oracle="nested", shared=s),
                       kind="public-differs-after-class-default-mutation" if attr == "neutron" else "shared-nested-object",
                       attr=attr)
     for s in res["foreign"]:
         run.violation(s, dict(oracle="nested", what=s), kind="foreign-atom")
+    for s in res.get("differs", [])[:10]:
+        run.violation("a freshly initialised private table does not serve the public value (%d differences): %s"
+                      % (res.get("ndiffers", 0), s), dict(oracle="nested", what=s), kind="private-differs")
 
 
 def run(run: Run) -> int:
